@@ -12,7 +12,7 @@ from . import peer
 
 class EvRec(object):
     __slots__ = ('seq', 't', 'name', 'obj', 'snap', 'index', 'wire_len',
-                 'conn')
+                 'conn', 'open_socks')
 
     def __repr__(self):
         return '<ev %d %s t=%d>' % (self.index, self.name, self.t)
@@ -336,6 +336,7 @@ def _consume(trace, make_gen, app, max_events, keep):
         rec.index = idx
         rec.conn = w.conn_index
         rec.wire_len = len(w.socks[-1].out_bytes) if w.socks else 0
+        rec.open_socks = sum(1 for s_ in w.socks if not s_.closed)
         trace.events.append(rec)
         idx += 1
         n += 1
@@ -376,6 +377,7 @@ def _consume_closing(trace, make_gen, app, max_events):
         rec.index = idx
         rec.conn = w.conn_index
         rec.wire_len = len(w.socks[-1].out_bytes) if w.socks else 0
+        rec.open_socks = sum(1 for s_ in w.socks if not s_.closed)
         trace.events.append(rec)
         idx += 1
         r = app.react(rec)
@@ -517,6 +519,7 @@ def _iterate_rebind(trace, make_gen, app, max_events):
             rec.index = idx
             rec.conn = w.conn_index
             rec.wire_len = len(w.socks[-1].out_bytes) if w.socks else 0
+            rec.open_socks = sum(1 for s_ in w.socks if not s_.closed)
             trace.events.append(rec)
             idx += 1
             r = app.react(rec)
@@ -540,6 +543,7 @@ def _sep(w, idx):
     rec.index = idx
     rec.conn = w.conn_index
     rec.wire_len = 0
+    rec.open_socks = 0
     return rec
 
 
